@@ -82,6 +82,12 @@ class Ctx:
         self.extra = {}
         self.skipped_cases = []
 
+    def clean_replays(self):
+        if os.path.isdir(REPLAY_DIR):
+            for f in os.listdir(REPLAY_DIR):
+                if f.startswith(self.prop + "-"):
+                    os.unlink(os.path.join(REPLAY_DIR, f))
+
     # ---------------------------------------------------------------- stage A
     def model_check(self, module, cfg, what=None, expect_violation=None, **kw):
         """Run TLC on a bounded model.  A violated invariant of the *intended* model is a
